@@ -151,11 +151,6 @@ func (m *HQModel) serve(c net.Conn) {
 		writeHTTP(c, 404, []byte(`{}`))
 		return
 	}
-	// The request waits for the scheduler under a name that does not depend on the order of arrival (several calls of one
-	// kind can arrive within one quantum when the crawler fetches with --hq-batch-concurrency > 1: they are
-	// indistinguishable, so whichever the scheduler releases first is "the first"); its number, and with it its place in
-	// the fault plan, is assigned once it has been released.
-	k.Park("hq:"+kind+"?", "hqsrv.arrive", kind)
 	m.mu.Lock()
 	n := m.counts[kind]
 	m.counts[kind]++
@@ -164,7 +159,7 @@ func (m *HQModel) serve(c net.Conn) {
 	fresh := m.fresh()
 	m.mu.Unlock()
 	actor := "hq:" + kind + "#" + strconv.Itoa(n)
-	k.Note(actor, "hqsrv.request", kind, n, fresh)
+	k.Park(actor, "hqsrv.request", kind, n, fresh)
 	call.Step = k.step
 	if call.Fault != "" {
 		k.Fault("hq-" + kind + "-" + call.Fault)
